@@ -34,6 +34,9 @@ impl<'a> ValueGen<'a> {
 	pub fn gen(&mut self, rng: &mut Rng) -> Val {
 		self.node(0, 0, rng)
 	}
+	pub fn gen_at(&mut self, id: Id, rng: &mut Rng) -> Val {
+		self.node(id, 0, rng)
+	}
 
 	pub fn interesting_i32(rng: &mut Rng) -> i32 {
 		match rng.below(8) {
